@@ -50,12 +50,22 @@ UNALIASED = [
 ]
 
 
+# results with REPEATED column names (same and different types): one description entry per position, each with its own type
+REPEATED = [
+    "select c0 as a, c13 as a from tt", "select c0, c0 from tt", "select 1 as x, 'a' as x, 1.5::float as x", "select c13 as c0, c0, c5 as c0 from tt",
+    "select a.c0, b.c13 as c0 from tt a join tt b on a.c0 = b.c0", "select a.*, b.* from tt a join tt b on a.c0 = b.c0",
+    "select a.c0, a.c13, b.c13, b.c0, b.c19 as c13 from tt a join tt b on a.c0 = b.c0", "select c19 as d, c13 as \"D\", c10 as D from tt",
+    "select * from (select 1 as k, 'x' as v) p join (select 1 as k, 2.5::float as v) q on p.k = q.k",
+]
+
+
 def type_queries(chk):
     qs = [("column", f"select c{i} from tt", None) for i in range(len(COLUMN_TYPES))]
     qs.append(("all-columns", "select * from tt", None))
     qs += [("expr", f"select {e} as x", None) for e in EXPRS]
     qs += [("agg", f"select {a} as x from tt", None) for a in AGGS]
     qs += [("unaliased", q, None) for q in UNALIASED]
+    qs += [("repeated-names", q, None) for q in REPEATED]
     decs = [(p, s) for p in range(1, 39) for s in range(0, p + 1)]
     if chk.tier == "quick":
         rnd = random.Random(chk.seed)
